@@ -62,6 +62,40 @@ pub fn gen_flat(ch: &mut Chooser, k: usize, max_jumps: usize) -> (String, usize)
     (format!("{{ A += 1; {} }}", out.join(" ")), njumps)
 }
 
+/// Forward-only jump graphs: exactly the shape if / else-if / else chains compile to.  `k` slots, `nj` of them jumps
+/// (every choice of positions), each jump of 4 kinds to every *later* label position; the other slots are markers.
+pub fn gen_forward(ch: &mut Chooser, k: usize, nj: usize) -> String {
+    // choose jump positions as a combination (free choices: full product)
+    let mut is_jump = vec![false; k];
+    let mut remaining = nj;
+    for i in 0..k {
+        let left = k - i;
+        if remaining == 0 { break; }
+        if remaining == left { is_jump[i] = true; remaining -= 1; continue; }
+        if ch.pick_free(2) == 1 { is_jump[i] = true; remaining -= 1; }
+    }
+    let mut out: Vec<String> = vec![];
+    let mut targets = BTreeSet::new();
+    let mut m = 0;
+    let mut jumps = vec![];
+    for i in 0..k {
+        if is_jump[i] {
+            let kind = ch.pick_free(4);
+            let t = i + 1 + ch.pick_free(k - i);   // i+1 ..= k
+            targets.insert(t);
+            jumps.push((i, kind, t));
+        }
+    }
+    for i in 0..k {
+        if targets.contains(&i) { out.push(format!("L{i}:")); }
+        if let Some(&(_, kind, t)) = jumps.iter().find(|j| j.0 == i) {
+            out.push(match kind { 0 => format!("if (A != 0) goto L{t};"), 1 => format!("goto L{t};"), 2 => format!("if (A != 1) goto L{t};"), _ => format!("if (B == 0) goto L{t};") });
+        } else { m += 1; out.push(format!("mS({m});")); }
+    }
+    if targets.contains(&k) { out.push(format!("L{k}:")); }
+    format!("{{ {} }}", out.join(" "))
+}
+
 fn raise_with(truth: &mut truth::Truth, hooks: &dyn llir::LanguageHooks, instrs: &[llir::RawInstr], blocks: bool) -> Result<ast::Block, String> {
     let options = llir::DecompileOptions { blocks, ..Default::default() };
     let emitter = truth.emitter();
@@ -200,6 +234,12 @@ pub fn run(tier: &str) -> Report {
         rep.transitions += stats.runs;
         if stats.capped { rep.cap_hit = Some(format!("generator cap at k={kk}")); }
     }
+    // family 3: forward-only jump graphs (the shape of if / else-if chains), deeper than family 1
+    for (kk, nj) in if thorough { vec![(7usize, 3usize), (8, 3), (8, 4)] } else { vec![(6, 3), (7, 3)] } {
+        let stats = explore_dfs(0, 3_000_000, &|ch| gen_forward(ch, kk, nj), &mut |_, body| { if seen.insert(body.clone()) { bodies.push((body, "forward")); } });
+        rep.transitions += stats.runs;
+        if stats.capped { rep.cap_hit = Some(format!("generator cap in forward family k={kk}")); }
+    }
     // family 2: structured programs (compiled, then recovered)
     let (b2, d2) = if thorough { (4, 2) } else { (3, 2) };
     let stats = explore_dfs(b2, 400_000, &|ch| {
@@ -229,7 +269,7 @@ pub fn run(tier: &str) -> Report {
     }
     if let Some(b) = bodies.last() { rep.sample(json!({"body": b.0, "family": b.1})); }
     rep.exhaustive = true;
-    rep.bound_completed = format!("flat graphs: k<={k} slots, <={max_jumps} jumps, every target assignment (deviations<={bound}); structured: deviations<={b2}, depth<={d2}; {tables_done}/{} intrinsic tables; {} valuations x difficulties 0,1", cfgs.len(), vals.len());
+    rep.bound_completed = format!("flat graphs: k<={k} slots, <={max_jumps} jumps, every target assignment (deviations<={bound}); forward-only graphs: full product of jump positions x 4 kinds x every later target for (slots, jumps) in (6,3),(7,3) [thorough: (7,3),(8,3),(8,4)]; structured: deviations<={b2}, depth<={d2}; {tables_done}/{} intrinsic tables; {} valuations x difficulties 0,1", cfgs.len(), vals.len());
     rep.rule = "E-DFS over G-flat (marker / time label / jump of 8 kinds to any of k+1 label positions / interrupt label / difficulty-tagged statement) and G-block; distinct = distinct source text with >= 1 jump or block; non-trivial = block recovery changed the decompiled text".into();
     rep.assumptions = vec!["truth::vm::AstVm is the reference interpreter on both sides".into(), "jumps into recovered blocks are executed after desugar_blocks (validated separately by C06)".into()];
     rep.explanation = "compile body -> RawInstrs -> (Raiser + postprocess_decompiled) with blocks off and on -> structural clauses on the two texts (time-label sequence, timed gotos, label reference counts) -> both texts re-parsed and executed by AstVm".into();
